@@ -561,6 +561,9 @@ class Gen:
             return x
 
         for (fname, fty, attrs) in fields:
+            if re.match(r"(Box<)?Signer<", fty):
+                # K5: a field of type Signer<'info> is checked by Anchor to have signed the transaction
+                clauses.append((fname, "type Signer<'info>", f"a.{fname}.info.is_signer"))
             for (atext, amask) in attrs:
                 for cl in split_top(atext):
                     c = " ".join(cl.split())
